@@ -6,6 +6,7 @@ from ..model import (AnalysisError, FUNC_TYPES, U, call_attr, call_name, dotted,
 from ..util import params, find_calls, assigns_to, trace, stmt_of, has_exit, syn_dominates, lexically_before, line_loop, some_truthy
 from ..settype import Kinds, iterations, classify_sinks
 from . import cleaner_shape as shape
+from .. import feat
 
 CL = "insights.cleaner"
 SF = "insights.core.spec_factory"
@@ -205,6 +206,25 @@ def r5_no_shared_state(cx):
                     bad.append(x)
         cx.require(not bad, bad[0] if bad else c, "%s modifies no mutable object that is bound in its class body" % cn,
                    construct=short(stmt_of(bad[0]), 90) if bad else "class-level mutables: %s" % (sorted(shared) or "none"))
+    # a stage's answer for a line depends on that line and on the substitution tables only: nothing derived from the text of a line is kept on the stage
+    # (a 'same as the previous line' shortcut hands out the result of an older line when the rewrite in between failed)
+    for mn, cn in stages:
+        m = cx.repo.module(mn)
+        c = m.cls(cn, "C10.R5")
+        pl = [f for f in c.body if isinstance(f, FUNC_TYPES) and f.name == "parse_line"]
+        if not pl:
+            continue
+        lp = params(pl[0])[1] if len(params(pl[0])) > 1 else "line"
+        bad = []
+        for f in feat.region(m, pl[0]):
+            fl = params(f)[1] if len(params(f)) > 1 and f is not pl[0] else lp
+            for a in walk_body(f.body):
+                tg = a.targets if isinstance(a, ast.Assign) else [a.target] if isinstance(a, ast.AugAssign) else []
+                for t in tg:
+                    for tt in (t.elts if isinstance(t, ast.Tuple) else [t]):
+                        if isinstance(tt, ast.Attribute) and U(tt.value) == "self" and feat.flows_from(a.value, f, lambda n: isinstance(n, ast.Name) and n.id == fl):
+                            bad.append(a)
+        cx.require(not bad, bad[0] if bad else pl[0], "%s.parse_line keeps nothing derived from the text of a line on the stage object" % cn, construct=short(bad[0], 80) if bad else "def %s.parse_line" % cn)
     # the writer puts exactly one separator between two cleaned lines (C11.R9 re-checked): a missing one glues two lines into one
     from . import c11
     cx.borrow(c11.r9_line_separator, "C11.R9", "C10.R2", "one output line per kept input line, original order restored")
